@@ -10,6 +10,7 @@ e  the plane-crossing wrapper
 b (added)  the symplectic event driver advances the carried extended state (Q,P,X,Y); caches of compiled event functions are keyed by
            code, closure and defaults (hv.memo)
 c-derivative  the derivative fed to the symplectic Hermite interpolant is (dH/dP, -dH/dQ) (C16.d, re-filed)
+d (round 4)  backward event search shows the event function the signed time (known findings: the three RK families); d-time: C10.a's event-time frame rules re-filed
 """
 from __future__ import annotations
 
@@ -56,6 +57,11 @@ def run(tier):
     from . import c16
     from .common import Relabel
     c16._gradient_slots(Relabel(chk, {"C16.d": "C11.c-derivative"}))
+    # the reported event time is in the frame of the requested grid for every integrator and direction (C10.a's time-frame rules re-filed)
+    from . import c10 as _c10
+    from .common import Relabel as _Relabel3
+    _c10._a_integrate_times(_Relabel3(chk, {"C10.a": "C11.d-time"}))
+    _d_event_time_argument(chk)
     return chk
 
 
@@ -412,6 +418,38 @@ def _b_integrate_wrappers(chk):
 
 
 # ------------------------------------------------------------------------------------------------ e
+def _d_event_time_argument(chk):
+    """"The event function there is zero": the time the event function is evaluated at is the time that is reported.  Propagating
+    backward, _propagate_dynsys reports signed times (0 ... -T); the integrator must then show the event function the signed time
+    too - by integrating the signed grid (symplectic) or by wrapping the event function (RK families on the direction-wrapped
+    system).  Decided per integrator on a direction-wrapped model system with fwd = -1: the grid the event kernel integrates is
+    -t_vals, or the event function handed to it is not the caller's raw function."""
+    from .c10 import _run_integrate, INTEGRATORS
+    T = [sp.Symbol(f"T{i}", real=True) for i in range(3)]
+    tv = to_obj_array(T)
+    rep = {T[0]: 0, T[1]: 1, T[2]: 2}
+    for cls_name, modname, drivers, kind in INTEGRATORS:
+        outcome, sol, cap = _run_integrate(cls_name, modname, drivers, tv, rep, fwd=-1, ham=(cls_name == "_ExtendedSymplectic"), event=True, hit=True)
+        ev = [c for c in cap["calls"] if "until_event" in c[0]]
+        if outcome != "return" or not ev:
+            raise AnalysisError(f"{cls_name}.integrate: event branch not reached on a direction-wrapped system ({outcome}: {sol})")
+        name, kw, a = ev[0]
+        vals = list(kw.values()) + list(a)
+        grid = kw.get("t_values", kw.get("t_eval", kw.get("t_vals")))
+        if grid is None:
+            grid = next((x for x in a if isinstance(x, np.ndarray) and x.shape == (3,)), None)
+        signed_grid = grid is not None and [S(v) for v in to_obj_array(grid)] == [-t for t in T]
+        t0k, tmk = kw.get("t0"), kw.get("tmax")
+        if grid is None and t0k is not None and tmk is not None:
+            signed_grid = S(t0k) == -T[0] and S(tmk) == -T[2]
+        raw_event = any(isinstance(v, sp.Basic) and v == sp.Symbol("EVF") for v in vals)
+        chk.check(signed_grid or not raw_event, "C11.d", f"{modname}::{cls_name}.integrate[event time argument, backward]",
+                  f"on a backward (direction-wrapped) system {name} integrates the unsigned grid and is handed the caller's event function as is: g is evaluated at +t "
+                  f"while the hit is reported at -t, so a time-dependent event function is not zero at the reported (time, state)",
+                  sample=f"{cls_name}: backward event search shows g the signed time")
+    chk.count("functions partially evaluated", 4)
+
+
 def _e_wrapper_direction(chk, rule="C11.e"):
     """The crossing search runs in the time direction that was asked for: the alignment step and the event-terminated
     integration see the same direction (the alignment moves the state off the plane; searching the other way re-crosses it
